@@ -373,6 +373,13 @@ void encode_imm(struct instr *instrc) {
     // special condition for to mov instruction
   } else if (TYPE(instrc->key, DATA_TRANSFER))
     encode_imm_data_transfer(instrc);
+  // a 32-bit destination takes an immediate in 0x80000000..0xffffffff as it
+  // is: it must not be widened to eight bytes like for a 64-bit destination
+  unsigned int opd0_mode = instrc->opd[0].reg & MODE_MASK;
+  if ((instrc->mem_disp ? instrc->keyword.is_dword
+                        : (opd0_mode == reg32 || opd0_mode == ext32)) &&
+      IN_RANGE(instrc->cons, NEG32BIT_CHECK, MAX_UNSIGNED_32BIT))
+    instrc->reduced_imm = true;
   // mask all bits except for the most significant byte
   if ((instrc->opd[0].reg & MODE_MASK) < reg32) {
     DO_NOT_PAD(instrc->cons, instrc->reduced_imm, MAX_UNSIGNED_16BIT);
